@@ -103,6 +103,18 @@ def step (line : String) : String :=
       | some ls => String.intercalate " | " ls
       | none => "bad-op"
     | _, _, _ => "bad-op"
+  | ["race", n] =>
+    match n.toNat? with
+    | some n =>
+      -- A fails with a nonce error on every endpoint (each is cancelled); B already passed the
+      -- isConnecting check, so it goes straight to handleReq with every endpoint context done
+      let (a, dead) := call true [] (List.replicate n .nonceErr)
+      let b := handleReq true (overlay dead (List.replicate n .accept))
+      let be := match b.reply with
+        | none => some CallErr.opCtx
+        | some rep => rep.err.map CallErr.req
+      s!"A={callErrName a.err} B={callErrName be} sent=0"
+    | none => "bad-op"
   | ["sig", s] =>
     match ofHex s with
     | some b =>
